@@ -1,7 +1,6 @@
-//! The harness proper. It is a CHILD module of the module that `include!`s the real `new_project.rs`,
-//! so that the private items of that file (`validate_program_name`, `TemplateValues`, `render_template`, …)
-//! are visible here without touching the source.
-use super::{program_keypair_relative_path, render_template, validate_program_name, TemplateValues};
+//! The harness proper. It uses ONLY the public API of the real `new_project.rs` (`new_project`, `NewArgs`) and the
+//! real `sf` binary, so that renaming / reordering / restructuring private items of the source cannot break it.
+use crate::real::{new_project, NewArgs};
 use hx_common::{Args, Recorder, Rng};
 use std::{
     collections::{BTreeMap, BTreeSet},
@@ -190,52 +189,122 @@ fn name_err_class(msg: &str) -> &'static str {
     }
 }
 
+thread_local! {
+    /// thread-private working directory (see `enter_private_cwd`)
+    static THREAD_CWD: std::cell::RefCell<Option<PathBuf>> = const { std::cell::RefCell::new(None) };
+}
+
+/// Give the calling thread its own current directory (Linux: `unshare(CLONE_FS)`), an empty scratch
+/// directory. `new_project` works in "." — this lets name ops run in parallel inside this process.
+fn enter_private_cwd(i: usize) {
+    let dir = SCRATCH.get().expect("scratch").join(format!("t{i}"));
+    let _ = fs::remove_dir_all(&dir);
+    fs::create_dir_all(&dir).unwrap();
+    // SAFETY: plain syscall; only affects the calling thread's fs attributes
+    let rc = unsafe { libc::unshare(libc::CLONE_FS) };
+    assert_eq!(rc, 0, "unshare(CLONE_FS) failed: {}", std::io::Error::last_os_error());
+    std::env::set_current_dir(&dir).unwrap();
+    THREAD_CWD.with(|c| *c.borrow_mut() = Some(dir));
+}
+
+fn quoted_after<'a>(line: &'a str, key: &str) -> Option<&'a str> {
+    let l = line.trim();
+    let rest = l.strip_prefix(key)?.trim_start().strip_prefix('=')?.trim_start();
+    rest.strip_prefix('"')?.split('"').next()
+}
+
+/// What a generated project says about its own names: (package name, lib name, Pascal-case name, keypair file).
+fn names_in_project(root: &Path) -> (String, String, String, String) {
+    let q = || "?".to_string();
+    let (mut package, mut lib, mut pascal, mut kp) = (q(), q(), q(), q());
+    if let Ok(t) = fs::read_to_string(root.join("Cargo.toml")) {
+        let mut section = "";
+        for l in t.lines() {
+            let lt = l.trim();
+            if lt.starts_with('[') {
+                section = lt;
+            } else if let Some(v) = quoted_after(lt, "name") {
+                if section == "[package]" {
+                    package = v.to_string();
+                } else if section == "[lib]" {
+                    lib = v.to_string();
+                }
+            }
+        }
+    }
+    if let Ok(t) = fs::read_to_string(root.join("src/lib.rs")) {
+        for l in t.lines() {
+            if let Some(r) = l.trim().strip_prefix("pub struct ") {
+                if let Some(n) = r.strip_suffix("Program;") {
+                    pascal = n.to_string();
+                }
+            }
+        }
+    }
+    if let Ok(rd) = fs::read_dir(root.join("target/deploy")) {
+        let mut names: Vec<String> = rd.flatten().map(|e| e.file_name().to_string_lossy().into_owned()).collect();
+        names.sort();
+        if names.len() == 1 {
+            kp = names.remove(0);
+        } else if !names.is_empty() {
+            kp = names.join("+");
+        }
+    }
+    (package, lib, pascal, kp)
+}
+
+/// `name <arg>`: the real `new_project(NewArgs { name })` in an empty thread-private directory.
 fn exec_name(raw: &str) -> Outcome {
+    if raw.chars().count() > 64 {
+        return Outcome::bad();
+    }
     let mut o = Outcome::default();
-    // line 27 of new_project.rs: validate_program_name(args.name.trim())
-    let res = validate_program_name(raw.trim());
+    let cwd = THREAD_CWD.with(|c| c.borrow().clone()).expect("private cwd");
+    // leftovers of a previous op that panicked half-way
+    if let Ok(rd) = fs::read_dir(&cwd) {
+        for e in rd.flatten() {
+            if fs::remove_dir_all(e.path()).is_err() {
+                let _ = fs::remove_file(e.path());
+            }
+        }
+    }
+    let res = new_project(NewArgs { name: raw.to_string() });
     let want = oracle_name_ok(oracle_trim(raw));
+    let mut entries: Vec<String> = fs::read_dir(&cwd).map(|rd| rd.flatten().map(|e| e.file_name().to_string_lossy().into_owned()).collect()).unwrap_or_default();
+    entries.sort();
     match &res {
-        Ok(name) => {
-            let v = TemplateValues::new(name, String::new());
-            let kp = program_keypair_relative_path(name);
-            let kpfile = kp.file_name().map(|s| s.to_string_lossy().into_owned()).unwrap_or_default();
-            o.answer = format!(
-                "ok {} {} {} {} {}",
-                v.name_lowercase, v.name_lowercase_underscore, v.name_uppercase, v.name_pascalcase, kpfile
-            );
+        Ok(()) => {
+            let t = oracle_trim(raw);
+            let dir = entries.first().cloned().unwrap_or_default();
+            let (package, lib, pascal, kpfile) = names_in_project(&cwd.join(&dir));
+            o.answer = format!("ok {package} {lib} {pascal} {kpfile}");
             o.bumps.push("name:accepted".into());
-            o.nontrivial = name.contains(['-', '_']) || name.chars().any(|c| c.is_ascii_digit()) || raw != name;
+            o.nontrivial = t.contains(['-', '_']) || t.chars().any(|c| c.is_ascii_digit()) || raw != t;
             if !want {
                 o.fails.push(("name_accepted_outside_grammar".into(), format!("accepted {raw:?}")));
             } else {
-                // consistency of everything derived from an accepted name
-                let t = oracle_trim(raw);
+                // consistency of everything the generated project says about its names
                 let under = t.replace('-', "_");
                 let mut bad = vec![];
-                if name != t {
-                    bad.push("returned name differs from the trimmed argument");
+                if entries.len() != 1 || dir != t {
+                    bad.push("directory name differs from the trimmed argument");
                 }
-                if v.name_lowercase != t {
-                    bad.push("crate name");
+                if package != t {
+                    bad.push("package name");
                 }
-                if v.name_lowercase_underscore != under {
+                if lib != under {
                     bad.push("lib name");
                 }
-                if v.name_uppercase != t.to_ascii_uppercase() {
-                    bad.push("upper-case name");
-                }
-                if v.name_pascalcase != oracle_pascal(t) {
+                if pascal != oracle_pascal(t) {
                     bad.push("pascal-case name");
                 }
-                let p = &v.name_pascalcase;
-                if !(p.chars().next().is_some_and(|c| c.is_ascii_uppercase()) && p.chars().all(|c| c.is_ascii_alphanumeric())) {
+                if !(pascal.chars().next().is_some_and(|c| c.is_ascii_uppercase()) && pascal.chars().all(|c| c.is_ascii_alphanumeric())) {
                     bad.push("pascal-case name is not an identifier");
                 }
-                if kpfile != format!("{under}-keypair.json") || kp.parent() != Some(Path::new("target/deploy")) {
-                    bad.push("keypair path");
+                if kpfile != format!("{under}-keypair.json") {
+                    bad.push("keypair file name");
                 }
-                for s in [&v.name_lowercase, &v.name_lowercase_underscore, &v.name_uppercase, &v.name_pascalcase, &kpfile] {
+                for s in [&package, &lib, &pascal, &kpfile] {
                     if s.contains(['{', '}', '/']) {
                         bad.push("derived name contains a brace or slash");
                     }
@@ -247,38 +316,41 @@ fn exec_name(raw: &str) -> Outcome {
         }
         Err(e) => {
             o.answer = "err".into();
-            let class = name_err_class(&e.to_string());
+            let class = name_err_class(&format!("{e:#}"));
             o.bumps.push(format!("name:err:{class}"));
             // a bad first character (or nothing at all) is the trivial way to be rejected
             o.nontrivial = class != "first" && class != "empty";
             if want {
                 o.fails.push(("name_rejected_inside_grammar".into(), format!("rejected {raw:?}: {e}")));
             }
+            if !entries.is_empty() {
+                o.fails.push(("not_all_or_nothing".into(), format!("rejected {raw:?} but left {entries:?}")));
+            }
+        }
+    }
+    for e in entries {
+        let p = cwd.join(e);
+        if fs::remove_dir_all(&p).is_err() {
+            let _ = fs::remove_file(&p);
         }
     }
     o
 }
 
-fn exec_render(tpl: &str, name: &str, pubkey: &str, real_template: bool) -> Outcome {
-    let mut o = Outcome::default();
-    // only accepted names reach TemplateValues::new in the program
-    if validate_program_name(name).is_err() {
+/// `replace <pat> <rep> <text>`: std's `str::replace` (ties the model's `replaceAll`).
+fn exec_replace(pat: &str, rep: &str, text: &str) -> Outcome {
+    if pat.is_empty() {
         return Outcome::bad();
     }
-    let v = TemplateValues::new(name, pubkey.to_string());
-    let out = render_template(tpl, &v);
-    o.answer = format!("ok {} {}", out.chars().count(), hash_chars(out.chars()));
-    o.nontrivial = out != tpl;
-    o.bumps.push(if real_template { "render:real-template".into() } else { "render:synthetic".into() });
-    if real_template && !pubkey.contains(['{', '}']) {
-        if let Some(p) = leftover_placeholder(&out) {
-            o.fails.push(("placeholder_left".into(), format!("{p} left after rendering with name {name:?}")));
-        }
-        if out != oracle_render(tpl, name, pubkey) {
-            o.fails.push(("render_differs_from_one_pass_substitution".into(), format!("name {name:?}")));
-        }
+    let out = text.replace(pat, rep);
+    Outcome { answer: format!("ok {}", hex_bytes(out.as_bytes())), nontrivial: out != text, bumps: vec!["replace".into()], ..Default::default() }
+}
+
+fn hex_bytes(b: &[u8]) -> String {
+    if b.is_empty() {
+        return "-".into();
     }
-    o
+    b.iter().map(|x| format!("{x:02x}")).collect()
 }
 
 // ------------------------------------------------------------------------------------------------
@@ -375,7 +447,8 @@ fn sf() -> &'static Sf {
             .stderr(Stdio::null())
             .status()
             .expect("run strace (is it installed?)");
-        assert!(st.success(), "baseline run of sf failed");
+        // a failing clean run is a finding of the ops below (a valid name rejected), not a harness error
+        let baseline_ok = st.success();
         let calls = parse_trace(&tr);
         let mut off = BTreeMap::new();
         let mut counts = BTreeMap::new();
@@ -393,7 +466,13 @@ fn sf() -> &'static Sf {
                 mine.iter().filter(|c| is_scaffold(c)).count()
             };
             off.insert(sys.to_string(), first);
-            counts.insert(sys.to_string(), n);
+            let default = match sys {
+                "mkdir" => 9,
+                "openat" => 12,
+                "write" => 21,
+                _ => 1,
+            };
+            counts.insert(sys.to_string(), if baseline_ok { n } else { default });
         }
         let _ = fs::remove_dir_all(&d);
         let tdir = repo_root().join("star_frame_cli/src/template");
@@ -447,8 +526,8 @@ const OK_ERRNOS: &[&str] = &[
     "ENOMEM", "EBUSY", "ENOTEMPTY",
 ];
 
-/// `none` or (syscall, k, errno)
-fn parse_fault(s: &str) -> Option<Option<(String, usize, String)>> {
+/// `none` or (syscall, first, last, errno): every call from the first-th to the last-th fails
+fn parse_fault(s: &str) -> Option<Option<(String, usize, usize, String)>> {
     if s == "none" {
         return Some(None);
     }
@@ -456,14 +535,21 @@ fn parse_fault(s: &str) -> Option<Option<(String, usize, String)>> {
     if parts.len() != 3 || !["mkdir", "openat", "write", "rename"].contains(&parts[0]) {
         return None;
     }
-    if parts[1].is_empty() || !parts[1].chars().all(|c| c.is_ascii_digit()) {
+    let num = |t: &str| -> Option<usize> {
+        if t.is_empty() || !t.chars().all(|c| c.is_ascii_digit()) {
+            return None;
+        }
+        t.parse().ok()
+    };
+    let (lo, hi) = match parts[1].split("..").collect::<Vec<_>>().as_slice() {
+        [a] => (num(a)?, num(a)?),
+        [a, b] => (num(a)?, num(b)?),
+        _ => return None,
+    };
+    if lo == 0 || hi < lo || !(parts[2] == "EEXIST" || parts[2] == "ENOENT" || OK_ERRNOS.contains(&parts[2])) {
         return None;
     }
-    let k: usize = parts[1].parse().ok()?;
-    if k == 0 || !(parts[2] == "EEXIST" || parts[2] == "ENOENT" || OK_ERRNOS.contains(&parts[2])) {
-        return None;
-    }
-    Some(Some((parts[0].to_string(), k, parts[2].to_string())))
+    Some(Some((parts[0].to_string(), lo, hi, parts[2].to_string())))
 }
 
 /// The independent notion of "the complete project directory" (from the property text): exactly one
@@ -562,7 +648,9 @@ fn listing(name: &str, tree: &BTreeMap<String, Entry>) -> (usize, u64) {
     (n, h as u64)
 }
 
-fn exec_scaffold(idx: usize, raw: &str, pre: &str, fault: &str) -> Outcome {
+/// `at_raw`: the pre-existing entry sits at the RAW (untrimmed) argument instead of at the trimmed name —
+/// the program must not care about it (it works on the trimmed name only).
+fn exec_scaffold(idx: usize, raw: &str, pre: &str, fault: &str, at_raw: bool) -> Outcome {
     let Some(fault) = parse_fault(fault) else { return Outcome::bad() };
     if raw.contains('\0') || raw.chars().count() > 64 {
         return Outcome::bad();
@@ -571,6 +659,11 @@ fn exec_scaffold(idx: usize, raw: &str, pre: &str, fault: &str) -> Outcome {
     if !["none", "file", "dir", "emptydir", "symlink", "symlinkdir", "dangling"].contains(&pre) || (pre != "none" && !valid_component(t)) {
         return Outcome::bad();
     }
+    if at_raw && (pre == "none" || raw == t || !valid_component(raw)) {
+        return Outcome::bad();
+    }
+    // where the pre-existing entry is placed
+    let place = if at_raw { raw } else { t };
     let sfx = sf();
     let mut o = Outcome::default();
     let work = sfx.scratch.join(format!("c{idx}"));
@@ -578,21 +671,21 @@ fn exec_scaffold(idx: usize, raw: &str, pre: &str, fault: &str) -> Outcome {
     let cwd = work.join("cwd");
     fs::create_dir_all(&cwd).unwrap();
     match pre {
-        "file" => fs::write(cwd.join(t), "x").unwrap(),
+        "file" => fs::write(cwd.join(place), "x").unwrap(),
         "dir" => {
-            fs::create_dir(cwd.join(t)).unwrap();
-            fs::write(cwd.join(t).join("keep"), "x").unwrap();
+            fs::create_dir(cwd.join(place)).unwrap();
+            fs::write(cwd.join(place).join("keep"), "x").unwrap();
         }
-        "emptydir" => fs::create_dir(cwd.join(t)).unwrap(),
+        "emptydir" => fs::create_dir(cwd.join(place)).unwrap(),
         "symlink" => {
             fs::write(work.join("elsewhere"), "x").unwrap();
-            std::os::unix::fs::symlink("../elsewhere", cwd.join(t)).unwrap();
+            std::os::unix::fs::symlink("../elsewhere", cwd.join(place)).unwrap();
         }
         "symlinkdir" => {
             fs::create_dir(work.join("elsewheredir")).unwrap();
-            std::os::unix::fs::symlink("../elsewheredir", cwd.join(t)).unwrap();
+            std::os::unix::fs::symlink("../elsewheredir", cwd.join(place)).unwrap();
         }
-        "dangling" => std::os::unix::fs::symlink("../nowhere", cwd.join(t)).unwrap(),
+        "dangling" => std::os::unix::fs::symlink("../nowhere", cwd.join(place)).unwrap(),
         _ => {}
     }
     let before = snapshot(&cwd);
@@ -602,17 +695,19 @@ fn exec_scaffold(idx: usize, raw: &str, pre: &str, fault: &str) -> Outcome {
     // run do not exist; strace cannot filter on flags, and a raw position past the end could only hit the
     // opendir calls of remove_dir_all (cleanup is not faulted in this property), so nothing is injected.
     let inject = match &fault {
-        Some((sys, k, _)) if sys == "openat" && *k > sfx.counts["openat"] => None,
+        Some((sys, k, _, _)) if sys == "openat" && *k > sfx.counts["openat"] => None,
         other => other.clone(),
     };
     match &inject {
         None => {
             cmd = Command::new(&sfx.bin);
         }
-        Some((sys, k, errno)) => {
+        Some((sys, lo, hi, errno)) => {
             cmd = Command::new("strace");
             cmd.args(["-f", "-o"]).arg(&trace).args(["-e", TRACED]);
-            cmd.arg("-e").arg(format!("inject={sys}:error={errno}:when={}", k + sfx.off[sys.as_str()]));
+            let off = sfx.off[sys.as_str()];
+            let when = if lo == hi { format!("{}", lo + off) } else { format!("{}..{}", lo + off, hi + off) };
+            cmd.arg("-e").arg(format!("inject={sys}:error={errno}:when={when}"));
             cmd.arg(&sfx.bin);
         }
     }
@@ -666,15 +761,15 @@ fn exec_scaffold(idx: usize, raw: &str, pre: &str, fault: &str) -> Outcome {
     o.answer = format!("{status} {class}");
     o.nontrivial = fired || pre != "none" || status != "ok";
     o.bumps.push(format!("scaffold:{status}:{}", class.split(' ').next().unwrap()));
-    if let Some((sys, _, errno)) = &fault {
+    if let Some((sys, _, _, errno)) = &fault {
         o.bumps.push(format!("fault:{sys}:{}:{errno}", if fired { "fired" } else { "not-reached" }));
     }
     if pre != "none" {
-        o.bumps.push(format!("pre:{pre}"));
+        o.bumps.push(format!("pre:{pre}{}{}", if at_raw { ":at-raw" } else { "" }, if raw != t { ":padded-arg" } else { "" }));
     }
     // property oracle
-    let detail = || format!("name={raw:?} pre={pre} fault={fault:?} status={status}: {}", why.join("; "));
-    if pre != "none" && (class != "clean" || status == "ok") {
+    let detail = || format!("name={raw:?} pre={pre}{} fault={fault:?} status={status}: {}", if at_raw { " at=raw" } else { "" }, why.join("; "));
+    if pre != "none" && !at_raw && (class != "clean" || status == "ok") {
         o.fails.push(("existing_target_modified".into(), detail()));
     } else if class == "dirty" {
         let leftover = after.keys().any(|k| !before.contains_key(k) && k.contains(".sf-new-"));
@@ -685,8 +780,85 @@ fn exec_scaffold(idx: usize, raw: &str, pre: &str, fault: &str) -> Outcome {
         o.fails.push(("error_but_project_created".into(), detail()));
     } else if status == "signal" {
         o.fails.push(("killed_by_signal".into(), detail()));
-    } else if pre == "none" && fault.is_none() && class.starts_with("complete") != oracle_name_ok(t) {
+    } else if (pre == "none" || at_raw) && fault.is_none() && class.starts_with("complete") != oracle_name_ok(t) {
         o.fails.push(("binary_name_acceptance".into(), detail()));
+    }
+    let _ = fs::remove_dir_all(&work);
+    o
+}
+
+/// `project <arg>`: run the real binary in an empty directory and print the WHOLE generated tree — every
+/// directory and every file with its full content (public key shown as `<<PUBKEY>>`, keypair file as `KEYPAIR`).
+fn exec_project(idx: usize, raw: &str) -> Outcome {
+    if raw.contains('\0') || raw.chars().count() > 64 {
+        return Outcome::bad();
+    }
+    let sfx = sf();
+    let mut o = Outcome::default();
+    let work = sfx.scratch.join(format!("c{idx}"));
+    let _ = fs::remove_dir_all(&work);
+    let cwd = work.join("cwd");
+    fs::create_dir_all(&cwd).unwrap();
+    let out = Command::new(&sfx.bin)
+        .args(["new", "--", raw])
+        .current_dir(&cwd)
+        .stdin(Stdio::null())
+        .stdout(Stdio::null())
+        .stderr(Stdio::null())
+        .output()
+        .expect("spawn sf");
+    let tree = snapshot(&cwd);
+    let t = oracle_trim(raw);
+    if out.status.code() == Some(0) {
+        let prefix = format!("{t}/");
+        // the keypair: the one file that is a JSON array of 64 bytes
+        let mut pubkey = String::new();
+        let mut kp_path = String::new();
+        for (k, v) in &tree {
+            if let (Some(rel), Entry::File(b)) = (k.strip_prefix(&prefix), v) {
+                if let Ok(rawkey) = serde_json::from_slice::<Vec<u8>>(b) {
+                    if let Ok(kp) = solana_keypair::Keypair::try_from(&rawkey[..]) {
+                        use solana_signer::Signer;
+                        pubkey = kp.pubkey().to_string();
+                        kp_path = rel.to_string();
+                    }
+                }
+            }
+        }
+        let mut parts = vec![];
+        for (k, v) in &tree {
+            let Some(rel) = k.strip_prefix(&prefix) else { continue };
+            match v {
+                Entry::Dir => parts.push(format!("{rel}/")),
+                Entry::File(_) if rel == kp_path => parts.push(format!("{rel}=KEYPAIR")),
+                Entry::File(b) => {
+                    let text = String::from_utf8_lossy(b).into_owned();
+                    let text = if pubkey.is_empty() { text } else { text.replace(&pubkey, "<<PUBKEY>>") };
+                    parts.push(format!("{rel}={}", hex_bytes(text.as_bytes())));
+                }
+                Entry::Link(l) => parts.push(format!("{rel}->{l}")),
+            }
+        }
+        o.answer = format!("ok {}", parts.join(" "));
+        o.nontrivial = true;
+        o.bumps.push("project:ok".into());
+        let problems = check_complete(sfx, t, &tree);
+        let extra: Vec<&String> = tree.keys().filter(|k| **k != t && !k.starts_with(&prefix)).collect();
+        if !problems.is_empty() || !extra.is_empty() {
+            o.fails.push(("not_all_or_nothing".into(), format!("name={raw:?} status=ok: {}; extra entries {extra:?}", problems.join("; "))));
+        }
+        if !oracle_name_ok(t) {
+            o.fails.push(("binary_name_acceptance".into(), format!("name={raw:?} accepted by the binary")));
+        }
+    } else {
+        o.answer = "err".into();
+        o.bumps.push("project:err".into());
+        if !tree.is_empty() {
+            o.fails.push(("not_all_or_nothing".into(), format!("name={raw:?} rejected but left {:?}", tree.keys().take(4).collect::<Vec<_>>())));
+        }
+        if oracle_name_ok(t) {
+            o.fails.push(("binary_name_acceptance".into(), format!("name={raw:?} rejected by the binary")));
+        }
     }
     let _ = fs::remove_dir_all(&work);
     o
@@ -702,22 +874,20 @@ fn exec_line(idx: usize, line: &str) -> Outcome {
             Some(raw) => exec_name(&raw),
             None => Outcome::bad(),
         },
-        ["render", t, n, k] => match (uncps(t), uncps(n), uncps(k)) {
-            (Some(t), Some(n), Some(k)) => exec_render(&t, &n, &k, false),
-            _ => Outcome::bad(),
+        ["project", a] => match uncps(a) {
+            Some(raw) => exec_project(idx, &raw),
+            None => Outcome::bad(),
         },
-        ["rendertpl", f, n, k] => match (uncps(n), uncps(k)) {
-            (Some(n), Some(k)) if f.chars().all(|c| c.is_ascii_alphanumeric() || c == '_') => {
-                let p = repo_root().join("star_frame_cli/src/template").join(f);
-                match fs::read_to_string(&p) {
-                    Ok(t) => exec_render(&t, &n, &k, true),
-                    Err(_) => Outcome::bad(),
-                }
-            }
+        ["replace", p, r, t] => match (uncps(p), uncps(r), uncps(t)) {
+            (Some(p), Some(r), Some(t)) => exec_replace(&p, &r, &t),
             _ => Outcome::bad(),
         },
         ["scaffold", a, pre, flt] => match (uncps(a), pre.strip_prefix("pre="), flt.strip_prefix("fault=")) {
-            (Some(raw), Some(pre), Some(flt)) => exec_scaffold(idx, &raw, pre, flt),
+            (Some(raw), Some(pre), Some(flt)) => exec_scaffold(idx, &raw, pre, flt, false),
+            _ => Outcome::bad(),
+        },
+        ["scaffold", a, pre, flt, "at=raw"] => match (uncps(a), pre.strip_prefix("pre="), flt.strip_prefix("fault=")) {
+            (Some(raw), Some(pre), Some(flt)) => exec_scaffold(idx, &raw, pre, flt, true),
             _ => Outcome::bad(),
         },
         _ => Outcome::bad(),
@@ -736,8 +906,11 @@ fn run_cases(rec: &mut Recorder, cases: &[Vec<String>], evaluations: &mut u64) {
     let next = std::sync::atomic::AtomicUsize::new(0);
     let results: Vec<std::sync::Mutex<Option<Outcome>>> = (0..n).map(|_| std::sync::Mutex::new(None)).collect();
     std::thread::scope(|s| {
-        for _ in 0..threads {
-            s.spawn(|| loop {
+        for ti in 0..threads {
+            let (next, jobs, results) = (&next, &jobs, &results);
+            s.spawn(move || {
+                enter_private_cwd(ti);
+                loop {
                 let i = next.fetch_add(1, std::sync::atomic::Ordering::Relaxed);
                 if i >= n {
                     break;
@@ -749,6 +922,7 @@ fn run_cases(rec: &mut Recorder, cases: &[Vec<String>], evaluations: &mut u64) {
                     ..Default::default()
                 });
                 *results[i].lock().unwrap() = Some(r);
+                }
             });
         }
     });
@@ -859,11 +1033,37 @@ fn gen_name_cases(max_len: usize, cases: &mut Vec<Vec<String>>) {
     }
 }
 
+/// Every strict / reserved / weak keyword of every edition (2015–2024). Independent of the source and of
+/// the spec list (`ORACLE_KEYWORDS` is what the 2021 edition — the edition of the generated project — reserves).
+const ALL_EDITION_KEYWORDS: &[&str] = &[
+    "as", "break", "const", "continue", "crate", "else", "enum", "extern", "false", "fn", "for", "if", "impl", "in", "let", "loop",
+    "match", "mod", "move", "mut", "pub", "ref", "return", "self", "Self", "static", "struct", "super", "trait", "true", "type",
+    "unsafe", "use", "where", "while", "async", "await", "dyn", "abstract", "become", "box", "do", "final", "macro", "override", "priv",
+    "typeof", "unsized", "virtual", "yield", "try", "gen", "macro_rules", "union", "safe", "raw", "auto", "catch", "default",
+];
+
+/// The entries of the generated keyword table (what the model uses), read from the generated Lean file.
+fn table_keywords() -> Vec<String> {
+    let p = PathBuf::from(std::env::var("VERIF_DIR").unwrap_or_else(|_| "/verif".into())).join("lean/Cli/Cli/Generated/Keywords.lean");
+    let text = fs::read_to_string(&p).unwrap_or_default();
+    let Some(line) = text.lines().find(|l| l.starts_with("def keywordStrings")) else { return vec![] };
+    line.split('"').skip(1).step_by(2).map(str::to_string).collect()
+}
+
 fn probe_names() -> Vec<String> {
     let mut v: Vec<String> = vec![];
-    for k in ORACLE_KEYWORDS {
-        let k = k.to_string();
+    let mut kws: Vec<String> = ALL_EDITION_KEYWORDS.iter().map(|s| s.to_string()).collect();
+    for k in table_keywords() {
+        if !kws.contains(&k) {
+            kws.push(k);
+        }
+    }
+    for k in &kws {
+        let k = k.clone();
         v.push(k.clone());
+        // every `-`/`_` spelling of the entry
+        v.push(k.replace('_', "-"));
+        v.push(k.replace('-', "_"));
         v.push(format!("{k}s"));
         v.push(format!("{k}1"));
         v.push(format!("{k}-"));
@@ -875,6 +1075,7 @@ fn probe_names() -> Vec<String> {
         v.push(format!("\t{k}\n"));
         v.push(k[..k.len() - 1].to_string());
         v.push(k.to_uppercase());
+        v.push(k.to_lowercase());
         let mut cs: Vec<char> = k.chars().collect();
         if cs.len() > 2 {
             cs.insert(1, '-');
@@ -945,69 +1146,51 @@ fn valid_random_name(rng: &mut Rng) -> String {
     }
 }
 
-fn gen_render_cases(rng: &mut Rng, n: usize, cases: &mut Vec<Vec<String>>) {
+fn gen_replace_cases(rng: &mut Rng, n: usize, cases: &mut Vec<Vec<String>>) {
     const PIECES: &[&str] = &[
         "{name_lowercase}", "{name_lowercase_underscore}", "{name_uppercase}", "{name_pascalcase}", "{pubkey}", "{name_", "{", "}", "{{", "}}",
         "name_lowercase}", "_underscore}", "lowercase}", "{pub", "key}", "{name_lowercase", "{name_{pubkey}}", "{name_{name_lowercase}case}",
-        "{{name_lowercase}}", "{{pubkey}_x}", "{name_lower{pubkey}case}", " ", "\n", "fn main() { ", "::", "é", "x", "_", "{}", "{name_snakecase}",
+        "{{name_lowercase}}", " ", "\n", "fn main() { ", "::", "é", "x", "_", "{}", "aa", "a", "aaa", "ab", "ba",
     ];
-    let mut c = vec!["case render-synthetic random templates built from placeholder fragments".to_string()];
+    let mut c = vec!["case replace-0 std str::replace on texts built from placeholder fragments".to_string()];
     for i in 0..n {
-        let k = rng.range(1, 8);
         let mut t = String::new();
-        for _ in 0..k {
+        for _ in 0..rng.range(0, 8) {
             let piece: &&str = rng.pick(PIECES);
             t.push_str(piece);
         }
-        let name = match rng.below(6) {
-            0 => "lower".to_string(),
-            1 => "name".to_string(),
-            2 => "pubkey".to_string(),
-            3 => "name_lowercase".to_string(),
+        let pat: &&str = rng.pick(PIECES);
+        let rep = match rng.below(4) {
+            0 => "".to_string(),
+            1 => (*rng.pick(PIECES)).to_string(),
+            2 => pat.to_string(),
             _ => valid_random_name(rng),
         };
-        let pk = match rng.below(5) {
-            0 => "key".to_string(),
-            1 => "{name_lowercase}".to_string(),
-            2 => "name_lowercase}".to_string(),
-            _ => "9xQeWvG816bUx9EPjHmaT23yvVM2ZWbrrpZb9PusVFin".to_string(),
-        };
-        c.push(format!("render {} {} {}", cps(&t), cps(&name), cps(&pk)));
+        c.push(format!("replace {} {} {}", cps(pat), cps(&rep), cps(&t)));
         if c.len() > 500 || i + 1 == n {
-            cases.push(std::mem::replace(&mut c, vec![format!("case render-synthetic-{i} random templates built from placeholder fragments")]));
+            cases.push(std::mem::replace(&mut c, vec![format!("case replace-{} std str::replace on texts built from placeholder fragments", i + 1)]));
         }
     }
 }
 
-fn gen_rendertpl_cases(rng: &mut Rng, per_template: usize, cases: &mut Vec<Vec<String>>) {
-    let tdir = repo_root().join("star_frame_cli/src/template");
-    let mut names: Vec<String> = fs::read_dir(&tdir).expect("template dir").map(|e| e.unwrap().file_name().to_string_lossy().into_owned()).collect();
-    names.sort();
-    for t in names {
-        let mut c = vec![format!("case rendertpl-{t} the real template with accepted names")];
-        for i in 0..per_template {
-            let name = match i {
-                0 => "ab".to_string(),
-                1 => "counter-program".to_string(),
-                2 => "name_lowercase".to_string(),
-                3 => "pubkey".to_string(),
-                4 => "a-1_b2".to_string(),
-                // names that are fragments of the placeholders (a template nesting placeholders would leak one)
-                5 => "lower".to_string(),
-                6 => "upper".to_string(),
-                7 => "pascal".to_string(),
-                8 => "underscore".to_string(),
-                9 => "name".to_string(),
-                10 => "lowercase".to_string(),
-                11 => "lowercase_underscore".to_string(),
-                12 => "uppercase".to_string(),
-                13 => "pascalcase".to_string(),
-                14 => "key".to_string(),
-                _ => valid_random_name(rng),
-            };
-            c.push(format!("rendertpl {t} {} {}", cps(&name), cps("9xQeWvG816bUx9EPjHmaT23yvVM2ZWbrrpZb9PusVFin")));
-        }
-        cases.push(c);
+/// Names that exercise every placeholder and distinguish the value expressions: digits next to letters,
+/// mixed separators, fragments of the placeholders themselves, long and one-letter names; some rejected ones.
+fn gen_project_cases(rng: &mut Rng, n_random: usize, cases: &mut Vec<Vec<String>>) {
+    let mut names: Vec<String> = [
+        "ab", "counter-program", "counter_program", "a", "a1", "a1b2c3", "a2b-cd_e", "x9_y", "q-1", "a-1_b2", "z9z", "a-b-c-d", "a_b_c_d", "a-b_c-d",
+        "lower", "upper", "pascal", "underscore", "name", "lowercase", "lowercase_underscore", "uppercase", "pascalcase", "key", "pubkey",
+        "name_lowercase", "name-pascalcase", " padded\t", "\u{a0}nb-sp\u{3000}", "abcdefghijklmnopqrstuvwxyz0123456789-abcdefghijklmnopqrstuvwxyz01",
+        // rejected
+        "Ab", "a--b", "a_", "fn", "a.b", "",
+    ]
+    .iter()
+    .map(|s| s.to_string())
+    .collect();
+    for _ in 0..n_random {
+        names.push(valid_random_name(rng));
+    }
+    for (i, n) in names.iter().enumerate() {
+        cases.push(vec![format!("case project-{i} full content of every generated file"), format!("project {}", cps(n))]);
     }
 }
 
@@ -1045,12 +1228,52 @@ fn gen_scaffold_cases(rng: &mut Rng, thorough: bool, cases: &mut Vec<Vec<String>
             }
         }
     }
+    // staging-name attempts: EEXIST on the first N mkdir calls (strace range injection). With 256 attempts the
+    // 256th candidate still succeeds after 255 failures, 256 failures exhaust the loop.
+    for n in [2usize, 3, 254, 255, 256, 257, 300] {
+        push("staging attempts", format!("scaffold {} pre=none fault=mkdir:1..{n}:EEXIST", cps("ab")), cases);
+    }
+    push("staging attempts", format!("scaffold {} pre=dangling fault=mkdir:1..255:EEXIST", cps("ab")), cases);
+    push("staging attempts", format!("scaffold {} pre=none fault=mkdir:2..9:ENOENT", cps("ab")), cases);
     // pre-existing targets, alone and combined with a fault
     for name in ["ab", "counter-program"] {
         for pre in ["file", "dir", "emptydir", "symlink", "symlinkdir", "dangling"] {
             push("pre-existing target", format!("scaffold {} pre={pre} fault=none", cps(name)), cases);
             for f in ["mkdir:1:EACCES", "mkdir:3:ENOENT", "openat:7:ENOSPC", "write:12:EIO", "rename:1:EXDEV", "mkdir:1:EEXIST"] {
                 push("pre-existing target + fault", format!("scaffold {} pre={pre} fault={f}", cps(name)), cases);
+            }
+        }
+    }
+    // pre-state families x spellings of the argument x where the entry sits (trimmed name / raw argument).
+    // The existence test, the staging name and the rename must all use the TRIMMED name: an empty directory
+    // at the trimmed name is the one pre-state the final rename(2) would silently replace.
+    for base in ["ab", "counter-program"] {
+        let spellings = [
+            base.to_string(),
+            format!(" {base}"),
+            format!("{base} "),
+            format!("\t{base}\n"),
+            format!(" {base}\t"),
+            format!("\u{a0}{base}\u{3000}"),
+            // padded and invalid after trimming
+            format!(" {}{} ", base[..1].to_uppercase(), &base[1..]),
+            format!(" {base}_ "),
+            " fn ".to_string(),
+        ];
+        for arg in &spellings {
+            for pre in ["none", "file", "emptydir", "dir", "symlink", "symlinkdir", "dangling"] {
+                push("pre-state x spelling", format!("scaffold {} pre={pre} fault=none", cps(arg)), cases);
+                if pre != "none" && arg.as_str() != oracle_trim(arg) {
+                    push("pre-state at the raw argument", format!("scaffold {} pre={pre} fault=none at=raw", cps(arg)), cases);
+                }
+            }
+        }
+        for arg in [format!(" {base}"), format!("{base}\n")] {
+            for pre in ["emptydir", "symlinkdir", "dangling"] {
+                for f in ["rename:1:EXDEV", "mkdir:1:EEXIST", "write:12:EIO"] {
+                    push("pre-state x padded spelling x fault", format!("scaffold {} pre={pre} fault={f}", cps(&arg)), cases);
+                    push("pre-state at the raw argument x fault", format!("scaffold {} pre={pre} fault={f} at=raw", cps(&arg)), cases);
+                }
             }
         }
     }
@@ -1100,17 +1323,27 @@ pub fn main() {
     let args = Args::parse();
     assert_eq!(args.prop, "C20", "hx-cli only knows C20");
     hx_common::quiet_panics();
+    // `new_project` prints its "next steps" to stdout on success; name ops call it in-process
+    if let Ok(devnull) = fs::OpenOptions::new().write(true).open("/dev/null") {
+        use std::os::fd::AsRawFd;
+        // SAFETY: plain dup2 of two valid descriptors
+        unsafe { libc::dup2(devnull.as_raw_fd(), 1) };
+    }
     let scratch = args.out.join("fs");
     let _ = fs::remove_dir_all(&scratch);
     fs::create_dir_all(&scratch).unwrap();
     SCRATCH.set(scratch.canonicalize().unwrap()).unwrap();
     let mut rec = Recorder::new(
-        "one evaluation = one op line. name ops: exhaustive over the 12-symbol class alphabet [a z A 0 9 _ - . / space e-acute {] up to the tier's \
-         length, keyword/near-keyword/Unicode/whitespace probes, PRNG names; render ops: PRNG templates from placeholder fragments and the real \
-         templates; scaffold ops: the real sf binary, every (syscall class, position, errno) fault of the clean-run sequence plus two positions \
-         past the end, pre-existing file/dir/symlink/dangling targets, names through the binary. Non-trivial = a name rejected for a reason other than its first character / emptiness, an accepted name \
-         with a separator/digit/trimmed padding, a render that changed the template, a scaffold whose injected fault fired or that met a \
-         pre-existing target or did not end in status ok; distinct by op line text.",
+        "one evaluation = one op line. name ops (the real new_project() in an empty private directory; answer = the names found in the \
+         generated Cargo.toml / lib.rs / target/deploy): exhaustive over the 12-symbol class alphabet [a z A 0 9 _ - . / space e-acute {] up \
+         to the tier's length; every keyword of every edition and every entry of the generated keyword table with its -/_ spellings and \
+         near-misses; Unicode/whitespace probes; PRNG names. project ops: the real sf binary, the whole generated tree with the full content \
+         of every file, for names exercising every placeholder. replace ops: std str::replace vs the model. scaffold ops: the real sf binary, \
+         every (syscall class, position, errno) fault of the clean-run sequence plus two positions past the end, EEXIST on the first N mkdir \
+         calls around the staging-attempt limit, pre-existing file/dir/emptydir/symlink/dangling targets x spellings of the argument, names \
+         through the binary. Non-trivial = a name rejected for a reason other than its first character / emptiness, an accepted name with a \
+         separator/digit/trimmed padding, a project listing, a replace that changed the text, a scaffold whose injected fault fired or that \
+         met a pre-existing target or did not end in status ok; distinct by op line text.",
     );
     let mut cases: Vec<Vec<String>> = vec![];
     let mut evaluations = 0u64;
@@ -1142,8 +1375,8 @@ pub fn main() {
                 cases.push(std::mem::replace(&mut c, vec![format!("case names-random-{} PRNG", i + 1)]));
             }
         }
-        gen_render_cases(&mut rng, if args.thorough() { 30_000 } else { 4_000 }, &mut cases);
-        gen_rendertpl_cases(&mut rng, if args.thorough() { 200 } else { 40 }, &mut cases);
+        gen_replace_cases(&mut rng, if args.thorough() { 30_000 } else { 4_000 }, &mut cases);
+        gen_project_cases(&mut rng, if args.thorough() { 400 } else { 30 }, &mut cases);
         gen_scaffold_cases(&mut rng, args.thorough(), &mut cases);
         rec.exhaustive = Some(false);
     }
